@@ -379,6 +379,20 @@ def runsAt (P Q : τ) : Nat → τ → τ → List Bool
 def framerStamps [OfNat τ 0] (P Q : τ) (n : Nat) : List τ :=
   ((stamps P n).zip (runsAt P Q n 0 0)).filterMap (fun sr => if sr.2 then some sr.1 else none)
 
+/-! ### a Skedder started at store stamp `b` (`Skedder(stamp=b)`); with `P = 0` ("asap") or with `b`
+so large that `b + P = b` in binary64 all ticks have the same store stamp -/
+
+def stampAtB (b P : τ) : Nat → τ
+  | 0 => b
+  | n + 1 => stampAtB b P n + P
+
+def stampsB (b P : τ) (n : Nat) : List τ := (List.range n).map (stampAtB b P)
+
+def stampsFromB (b P : τ) (s n : Nat) : List τ := (stampsB b P (s + n)).drop s
+
+def framerStampsB (b P Q : τ) (n : Nat) : List τ :=
+  ((stampsB b P n).zip (runsAt P Q n b b)).filterMap (fun sr => if sr.2 then some sr.1 else none)
+
 end generic
 
 end Ioflo.FloClock
